@@ -2624,7 +2624,7 @@ func (self *LockDB) wakeUpWaitLocks(lockManager *LockManager, serverProtocol Ser
 
 func (self *LockDB) wakeUpWaitLock(lockManager *LockManager, waitLock *Lock, serverProtocol ServerProtocol) {
 	//self.RemoveTimeOut(wait_lock)
-	if waitLock.command.TimeoutFlag&protocol.TIMEOUT_FLAG_REQUIRE_ACKED != 0 && !waitLock.isAof && waitLock.aofTime != 0xff && waitLock.command.Flag&protocol.LOCK_FLAG_FROM_AOF == 0 {
+	if waitLock.command.TimeoutFlag&protocol.TIMEOUT_FLAG_REQUIRE_ACKED != 0 && !waitLock.isAof && lockManager.GetWillAofTime(waitLock) != 0xff && waitLock.command.Flag&protocol.LOCK_FLAG_FROM_AOF == 0 {
 		lockManager.AddLock(waitLock)
 		lockManager.locked++
 		waitLock.refCount++
